@@ -228,7 +228,7 @@ def decoderFiles : List String :=
     look for a pair of inputs that exposes it. -/
 theorem hidden_state_reviewed :
     Gen.HiddenState.sitesIn decoderFiles =
-      [("decode/mod.rs", "static CONFIG: OnceCell<SerializeConfig> = OnceCell::new();")] := by decide
+      [("decode/mod.rs", "static CONFIG:OnceCell<SerializeConfig>=OnceCell::new();")] := by decide
 
 theorem hidden_state_scanned : 25 ≤ Gen.HiddenState.filesScanned := by decide
 
